@@ -17,7 +17,13 @@ package main
 //	c.checkTimeout = utils.NewTimer(c.HealthChecker.timeout, c.OnTimeout) -> .armTimeout
 //	id := atomic.LoadUint64(&c.checkID)                                -> .readID
 //	c.resp <- checkResponse{ID: id, Healthy: c.Session.CheckHealth()}  -> .checkAndSend
-//	c.timeout <- true                                                  -> .sendTimeout
+//	c.timeout <- true   |   c.timeout <- id (OnTimeout's parameter)    -> .sendTimeout
+//	verifDispatchYield(site, c.Host)                                    -> skipped (verif yield point, empty without the tag)
+//
+// The timeout case of the select is read in two shapes: `case <-c.timeout: BODY` (timeoutGuarded = false) and
+// `case id := <-c.timeout: if id == currentID { BODY } else { STALE }` (timeoutGuarded = true, onStaleTimeout = STALE).
+// timeoutCarriesID: OnCheck arms the timeout timer with `func() { c.OnTimeout(id) }` where id is the value it read from
+// checkID, and OnTimeout(id) sends that parameter on c.timeout.
 //
 // Log statements guarded by the log level and the stats counter are skipped; anything else is rejected
 // (translation-unsupported). All helpers are prefixed c16d.
@@ -48,6 +54,14 @@ func c16dIsLog(s ast.Stmt) bool {
 			return false
 		}
 		k := c16dSrc(c.Fun)
+		if k == "verifDispatchYield" {
+			for _, a := range c.Args {
+				if _, isCall := a.(*ast.CallExpr); isCall {
+					return false
+				}
+			}
+			return true
+		}
 		if strings.HasPrefix(k, "log.DefaultLogger.") {
 			for _, a := range c.Args {
 				if c16dSensitive(a) {
@@ -146,7 +160,8 @@ func c16dAct(s ast.Stmt, recv string) (string, error) {
 					if l == recv+".checkTimer" && cb == recv+".OnCheck" {
 						return ".armCheck", nil
 					}
-					if l == recv+".checkTimeout" && cb == recv+".OnTimeout" && exprKey(c.Args[0]) == recv+".HealthChecker.timeout" {
+					if l == recv+".checkTimeout" && exprKey(c.Args[0]) == recv+".HealthChecker.timeout" &&
+						(cb == recv+".OnTimeout" || c16dTimeoutClosureArg(c.Args[1], recv) != "") {
 						return ".armTimeout", nil
 					}
 				}
@@ -157,8 +172,8 @@ func c16dAct(s ast.Stmt, recv string) (string, error) {
 		}
 	case *ast.SendStmt:
 		ch := exprKey(x.Chan)
-		if ch == recv+".timeout" && exprKey(x.Value) == "true" {
-			return ".sendTimeout", nil
+		if _, isIdent := x.Value.(*ast.Ident); ch == recv+".timeout" && isIdent {
+			return ".sendTimeout", nil // true, or OnTimeout's parameter (c16dCarriesID tells which)
 		}
 		if ch == recv+".resp" {
 			if cl, ok := x.Value.(*ast.CompositeLit); ok && len(cl.Elts) == 2 {
@@ -304,7 +319,8 @@ func c16dGen() (string, error) {
 	if !ok || len(inner.Body.List) != 3 {
 		return "", fmt.Errorf("Start: inner select does not have the three cases stop / resp / timeout")
 	}
-	var onResp, onExpired, onTimeout []string
+	var onResp, onExpired, onTimeout, onStale []string
+	guarded := false
 	seen := map[string]bool{}
 	for _, c := range inner.Body.List {
 		cc := c.(*ast.CommClause)
@@ -337,7 +353,27 @@ func c16dGen() (string, error) {
 			}
 			seen["resp"] = true
 		case recv + ".timeout":
-			if onTimeout, err = c16dSeq(cc.Body, recv); err != nil {
+			body := cc.Body
+			if as, ok := cc.Comm.(*ast.AssignStmt); ok {
+				// case id := <-c.timeout: if id == currentID { … } else { … }
+				if len(as.Lhs) != 1 || as.Tok != token.DEFINE || len(cc.Body) != 1 {
+					return "", fmt.Errorf("Start: timeout case binds the received value but is not a single `if <value> == currentID`")
+				}
+				ifs, ok := cc.Body[0].(*ast.IfStmt)
+				if !ok || ifs.Init != nil || c16dSrc(ifs.Cond) != exprKey(as.Lhs[0])+" == currentID" {
+					return "", fmt.Errorf("Start: timeout case binds the received value but is not guarded by `<value> == currentID`")
+				}
+				guarded = true
+				body = ifs.Body.List
+				if eb, ok := ifs.Else.(*ast.BlockStmt); ok {
+					if onStale, err = c16dSeq(eb.List, recv); err != nil {
+						return "", err
+					}
+				} else if ifs.Else != nil {
+					return "", fmt.Errorf("Start: else-if in the timeout case")
+				}
+			}
+			if onTimeout, err = c16dSeq(body, recv); err != nil {
 				return "", err
 			}
 			seen["timeout"] = true
@@ -361,6 +397,7 @@ func c16dGen() (string, error) {
 	if err != nil {
 		return "", err
 	}
+	carries := c16dCarriesID(oc, ot)
 	capT, err := c16dChanCap(f, "timeout")
 	if err != nil {
 		return "", err
@@ -376,6 +413,9 @@ func c16dGen() (string, error) {
 	s += "/-- inner select, answer carrying the awaited id -/\ndef onResp : List Act := " + c16dList(onResp) + "\n"
 	s += "/-- inner select, answer carrying another id -/\ndef onExpired : List Act := " + c16dList(onExpired) + "\n"
 	s += "/-- inner select, timeout -/\ndef onTimeout : List Act := " + c16dList(onTimeout) + "\n"
+	s += "/-- inner select, timeout whose id is not the awaited one (only when timeoutGuarded) -/\ndef onStaleTimeout : List Act := " + c16dList(onStale) + "\n"
+	s += fmt.Sprintf("/-- the timeout case is `case id := <-c.timeout: if id == currentID {onTimeout} else {onStaleTimeout}` -/\ndef timeoutGuarded : Bool := %v\n", guarded)
+	s += fmt.Sprintf("/-- the value sent on c.timeout is the id OnCheck read from checkID when it armed the timer -/\ndef timeoutCarriesID : Bool := %v\n", carries)
 	s += "/-- deferred block of Start -/\ndef onExit : List Act := " + c16dList(onExit) + "\n"
 	s += "/-- OnCheck (callback of the check timer, its own goroutine) -/\ndef onCheck : List Act := " + c16dList(onCheck) + "\n"
 	s += "/-- OnTimeout (callback of the timeout timer, its own goroutine) -/\ndef onTimeoutFn : List Act := " + c16dList(onTimeoutFn) + "\n"
@@ -396,4 +436,86 @@ func c16dSensitiveTimers(n ast.Node) bool {
 		return !hit
 	})
 	return hit
+}
+
+// c16dTimeoutClosureArg: `func() { c.OnTimeout(<ident>) }` -> the identifier, else ""
+func c16dTimeoutClosureArg(e ast.Expr, recv string) string {
+	fl, ok := e.(*ast.FuncLit)
+	if !ok || len(fl.Type.Params.List) != 0 || len(fl.Body.List) != 1 {
+		return ""
+	}
+	k, args := c16dCall(fl.Body.List[0])
+	if k != recv+".OnTimeout" || len(args) != 1 {
+		return ""
+	}
+	if id, ok := args[0].(*ast.Ident); ok {
+		return id.Name
+	}
+	return ""
+}
+
+// c16dCarriesID: OnCheck reads `x := atomic.LoadUint64(&c.checkID)`, arms the timeout timer with func() { c.OnTimeout(x) },
+// x is assigned nowhere else in OnCheck, and OnTimeout(p uint64) sends p on c.timeout
+func c16dCarriesID(oc, ot *ast.FuncDecl) bool {
+	recv := oc.Recv.List[0].Names[0].Name
+	readVar, armVar := "", ""
+	assigns := map[string]int{}
+	ast.Inspect(oc.Body, func(n ast.Node) bool {
+		if as, ok := n.(*ast.AssignStmt); ok {
+			for _, l := range as.Lhs {
+				assigns[exprKey(l)]++
+			}
+			if len(as.Lhs) == 1 && len(as.Rhs) == 1 {
+				if c, ok := as.Rhs[0].(*ast.CallExpr); ok {
+					switch exprKey(c.Fun) {
+					case "atomic.LoadUint64":
+						if len(c.Args) == 1 && exprKey(c.Args[0]) == "&"+recv+".checkID" && as.Tok == token.DEFINE {
+							readVar = exprKey(as.Lhs[0])
+						}
+					case "utils.NewTimer":
+						if len(c.Args) == 2 && exprKey(as.Lhs[0]) == recv+".checkTimeout" {
+							armVar = c16dTimeoutClosureArg(c.Args[1], recv)
+						}
+					}
+				}
+			}
+		}
+		if u, ok := n.(*ast.UnaryExpr); ok && u.Op == token.AND {
+			assigns[exprKey(u.X)] += 2 // address taken
+		}
+		if ids, ok := n.(*ast.IncDecStmt); ok {
+			assigns[exprKey(ids.X)] += 2
+		}
+		return true
+	})
+	if readVar == "" || armVar != readVar || assigns[readVar] != 1 {
+		return false
+	}
+	if ot.Type.Params == nil || len(ot.Type.Params.List) != 1 || len(ot.Type.Params.List[0].Names) != 1 {
+		return false
+	}
+	param := ot.Type.Params.List[0].Names[0].Name
+	trecv := ot.Recv.List[0].Names[0].Name
+	sends, ok := 0, true
+	ast.Inspect(ot.Body, func(n ast.Node) bool {
+		switch x := n.(type) {
+		case *ast.SendStmt:
+			sends++
+			if exprKey(x.Chan) != trecv+".timeout" || exprKey(x.Value) != param {
+				ok = false
+			}
+		case *ast.AssignStmt:
+			for _, l := range x.Lhs {
+				if exprKey(l) == param {
+					ok = false
+				}
+			}
+		case *ast.IncDecStmt:
+			if exprKey(x.X) == param {
+				ok = false
+			}
+		}
+		return true
+	})
+	return ok && sends == 1
 }
